@@ -517,7 +517,13 @@ func (r *Remote) fetch(ctx context.Context, o *FetchOptions) (sto storer.Referen
 	}
 
 	var haves []plumbing.Hash
-	wants, _ := getWants(r.s, refs, o.Depth)
+	wants, err := getWants(r.s, refs, o.Depth)
+	if err != nil {
+		// Not being able to tell whether an advertised object is already
+		// here is not the same as having it: going on would skip its
+		// download and still point references at it.
+		return nil, err
+	}
 	if len(wants) > 0 {
 		haves, err = getHaves(localRefs, remoteRefs, r.s, o.Depth)
 		if err != nil {
